@@ -1,6 +1,6 @@
 (** C05 — Pause is a quiescent point.  Property theorems only. *)
 From Coq Require Import Permutation.
-From Akita Require Import Lib.Base Lib.Lts C05.Model C05.Proofs1 C05.Proofs2 C05.Proofs3.
+From Akita Require Import Lib.Base Lib.Lts C05.Model C05.Proofs1 C05.Proofs2 C05.Proofs3 C05.Proofs4.
 Local Open Scope N_scope.
 
 (** Parallel engine: for every program, every initial queue, every well-formed
@@ -95,6 +95,31 @@ Proof.
   apply (run_invariant (s_step prog) LInv (LInv_step prog)). apply LInv_init.
 Qed.
 Print Assumptions c05_continue_live.
+
+(** TWO pauser goroutines on the parallel engine, each with its own alternating
+    Pause/Continue script (the pause lock records its owner): for every program and
+    EVERY interleaving — including overlapping Pause calls while a round is in
+    progress — no handler is executing when either Pause returns and none starts
+    until that pauser calls Continue; no mutex fault. *)
+Theorem c05_two_pausers_quiescent : forall prog init s1 s2 o,
+  alternating false s1 = true -> alternating false s2 = true ->
+  let s := run (m2_step prog false) o (m2_init init s1 s2) in
+  quiescent (rev (m_trace s)) = true /\ m_fault s = false /\ (pheld s = true -> m_workers s = []).
+Proof. exact two_pausers_quiescent. Qed.
+Print Assumptions c05_two_pausers_quiescent.
+
+(** With an "already paused" atomic flag swapped BEFORE pauseLock is taken (an
+    idempotent-looking Pause), the guarantee is lost for the second pauser: its Pause
+    returns at once while the first is still waiting for the round and a handler is
+    executing.  (Every Pause caller must pass through the mutex Run holds.) *)
+Theorem c05_two_pausers_flag_refuted :
+  exists o, let s := run (m2_step wit_prog true) o (m2_init wit_init [OpPause; OpContinue] [OpPause; OpContinue]) in
+  rev (m_trace s) = [HStart 1; PauseRet] /\ quiescent (rev (m_trace s)) = false /\ m_lock s = Some OwnEngine.
+Proof.
+  exists [T2E; T2E; T2E; T2W 0%nat; T2P false; T2P true].
+  destruct two_pausers_flag_refuted as [A [B [_ D]]]. auto.
+Qed.
+Print Assumptions c05_two_pausers_flag_refuted.
 
 (** Pause / Continue WITHOUT pauseMu (the "flag is atomic, Broadcast needs no lock"
     variant) loses the wake-up: Continue's Broadcast lands between waitForResume's
